@@ -443,6 +443,22 @@ def ob_native():
             Uq = np.linalg.qr(mk(n, n))[0]
             if (not (abs(mt.calc_chordal_distance(Uq @ A, Uq @ B) - d1) <= 1e-7)):
                 return {"unitary rotation": True}
+        # close but unequal subspaces: one basis vector tilted by a known small angle out of span(A); the distance is sin(theta) in
+        # all three routines and in particular not zero
+        if n > k:
+            Qf = np.linalg.qr(np.hstack([A, mk(n, n - k)]))[0]
+            for theta in (3e-3, 1e-3, 1e-4):
+                Bc = Qf[:, :k].copy()
+                Bc[:, 0] = math.cos(theta) * Qf[:, 0] + math.sin(theta) * Qf[:, k]
+                Tc = mk(k, k)
+                if (not (np.linalg.cond(Tc) <= 1e2)):
+                    Tc = np.eye(k)
+                Bc = Bc @ Tc
+                ds = [mt.calc_chordal_distance(A, Bc), mt.calc_chordal_distance_2(A, Bc),
+                      mt.calc_chordal_distance_from_principal_angles(mt.calc_principal_angles(A, Bc))]
+                if (not (max(abs(d - math.sin(theta)) for d in ds) <= 1e-7)):
+                    return {"subspaces at the known small principal angle": theta, "chordal distances (three routines)": [float(d) for d in ds],
+                            "expected": math.sin(theta)}
         # gmd (incl. exactly repeated singular values: scaled identities, permutations, diag(4,2,2,1)-like)
         H = mk(n, n)
         if case["seed"] % 3 == 0:
